@@ -14,7 +14,7 @@ from . import catalogue, explore
 
 _L: dict[str, Any] = {}
 
-LEAVES = ["a", "b", "c", "2", "-1", "-3", "1/2", "-2/3", "1.5", "pi"]
+LEAVES = ["a", "b", "c", "2", "-1", "-3", "1/2", "-2/3", "1.5", "pi", "1e-10", "6.5e-20"]
 MEDIUM = ["a", "b", "c", "2", "-1", "1/2", "-2/3", "pi"]
 REDUCED = ["a", "b", "2", "-1", "1/2"]
 EXPS = ["-1", "2", "-2", "1/2", "-1/2", "1/3", "3/2", "b", "a+c"]
@@ -35,6 +35,8 @@ def setup() -> dict[str, Any]:
     for n, v in (("-2", -2), ("-1/2", sp.Rational(-1, 2)), ("1/3", sp.Rational(1, 3)), ("3/2",
         sp.Rational(3, 2))):
         _L[n] = sp.sympify(v)
+    _L["1e-10"] = sp.Float("1e-10")  # printed in exponent notation
+    _L["6.5e-20"] = sp.Float("6.5e-20")
     _L["a+c"] = _L["a"] + _L["c"]
     return _L
 
